@@ -71,6 +71,7 @@ def run(ctx):
     n_inputs = 40 if quick else 500
     n_plans = 5 if quick else 8
     n_fix = 6 if quick else 60
+    n_subus = 12 if quick else 150
     max_src = 8 if quick else 32
     # ---- A
     vlib.proof_stage(ctx, "Props/C01.v", ["coord"], extra_targets=["Corr/C01.vo"])
@@ -95,6 +96,16 @@ def run(ctx):
             ns = rng.randrange(9, max_src + 1)
         inp = mu.gen_input(rng, ns, rng.choice([4, 10, 40]), opts_choices=OPTS)
         mu.write_input(inp, os.path.join(scratch, "in%04d" % k), rng.randrange(1000))
+        inputs.append(inp)
+        if rng.random() < 0.3:
+            q = permuted(rng, inp)
+            if q:
+                inputs.append(q)
+    # instants that differ only below the microsecond across sources (7-9 fractional digits):
+    # this class is generated on every run
+    for k in range(n_subus):
+        inp = mu.subus_input(rng, rng.choice([2, 2, 3, 4, 6, 8]), rng.choice([3, 6, 12]), opts_choices=OPTS)
+        mu.write_input(inp, os.path.join(scratch, "subus%04d" % k), rng.randrange(1000))
         inputs.append(inp)
         if rng.random() < 0.3:
             q = permuted(rng, inp)
@@ -210,7 +221,7 @@ def run(ctx):
         fix_hist[inp["family"]] = fix_hist.get(inp["family"], 0) + 1
     ctx.coverage.update(
         evaluations=len(results), distinct_nontrivial=len(nontriv),
-        rule="inputs = corpus/C01 (hand-picked ties) + generated: 1..%d text sources (ISO timestamps with microseconds and numeric UTC offsets; instants drawn from tie-heavy increments {0,1us,2us,999us,1ms,~1s,60s}; offsets per line or per file from {+00:00,+01:00,-05:30,+05:45,-08:00,+14:00,-12:00}; 0-2 continuation lines; plain/gz/xz; 15%% non-chronological sources; sources emptied by -a/-b; sources without any timestamp; argument order = random permutation of name order, 30%% re-run with another permutation, 10%% passed as a directory) + fixture inputs (2-6 utmp / evtx / journal files of /repo/logs in several compressed variants, i.e. identical instants in several sources; instants read back from s4's -u -d '%%s%%.9f' prefix); each input x %d planned schedules. distinct_nontrivial counts DISTINCT generated inputs (by instants and options) with >= 2 non-empty sources and at least one cross- or intra-source tie, plus distinct fixture file lists" % (max_src, n_plans),
+        rule="inputs = corpus/C01 (hand-picked ties) + generated: 1..%d text sources (ISO timestamps with 6-9 fractional digits, one notation per file, and numeric UTC offsets; instants in NANOSECONDS drawn from tie-heavy increments {0,1us,2us,999us,1ms,~1s,60s} plus sub-microsecond increments {0,1,10,100,900,990,999 ns}; offsets per line or per file from {+00:00,+01:00,-05:30,+05:45,-08:00,+14:00,-12:00}; 0-2 continuation lines; plain/gz/xz; 12%% generated utmp accounting-record sources (384-byte records with distinct times, physical order shuffled so that the physically last record is usually not the newest; compared by message order only); 15%% non-chronological sources; sources emptied by -a/-b; sources without any timestamp; argument order = random permutation of name order, 30%% re-run with another permutation, 10%% passed as a directory) + sub-microsecond inputs (2-8 sources with 7/8/9 fractional digits, several anchors inside one millisecond, every source has a message inside the same microsecond, mostly with the LATER-named source holding the EARLIER message 1 ns / 10 ns / 999 ns apart, mixed with exact ties) + fixture inputs (2-6 utmp / evtx / journal files of /repo/logs in several compressed variants, i.e. identical instants in several sources; instants read back from s4's -u -d '%%s%%.9f' prefix); each input x %d planned schedules. distinct_nontrivial counts DISTINCT generated inputs (by instants and options) with >= 2 non-empty sources and at least one cross- or intra-source tie, plus distinct fixture file lists" % (max_src, n_plans),
         samples=[dict(mu.describe(inputs[i]), expected_order_head=(exp[i][1][:12] if exp[i] else None)) for i in (0, n_corpus + 1, n_gen - 1, len(inputs) - 1)],
         inputs=len(inputs), corpus_inputs=n_corpus, fixture_inputs=len(inputs) - n_gen, fixture_family_histogram=fix_hist,
         plans_per_input=n_plans, traces_validated_against_impl=len(tr_cases) - len(tbad),
@@ -219,6 +230,11 @@ def run(ctx):
         inputs_with_cross_source_ties=sum(1 for c, i in tie_info if c), inputs_with_intra_source_ties=sum(1 for c, i in tie_info if i),
         inputs_with_emptied_sources=sum(1 for inp in gen_inputs if inp["window"]),
         inputs_as_directory=sum(1 for inp in gen_inputs if inp["as_dir"]),
+        inputs_with_utmp_source_last_record_not_newest=sum(1 for inp in gen_inputs if mu.describe(inp)["physically_last_record_not_newest"]),
+        sub_microsecond_inputs=sum(1 for inp in gen_inputs if inp.get("subus")),
+        inputs_with_sub_microsecond_inversions=sum(1 for inp in gen_inputs if mu.subus_inversions(inp) > 0),
+        sub_microsecond_inversion_pairs=sum(mu.subus_inversions(inp) for inp in gen_inputs),
+        inputs_with_nanosecond_instants=sum(1 for inp in gen_inputs if any(x % 1000 for l in mu.instants(inp) for x in l)),
         messages_total=sum(len(l) for ii in set(meta) for l in results[meta.index(ii)]["srcs"]),
         max_run_wall_s=round(max(r["wall"] for r in results), 3))
     ctx.assumptions += [
